@@ -138,22 +138,25 @@ inductive ArgsSrc where
   | unknown
   deriving DecidableEq, Repr, Inhabited
 
-/-- the vector behind the script's `os.Args` -/
-def scriptArgsSrc (F : Facts) (o : Options) (h : Host) : ArgsSrc :=
-  match ioStream F (cfgOf F o h) "os" "Args" with
-  | .args =>
-    match slotSlice F "args" o.args with
-    | .given a => .opt a
-    | .dflt d => if d == "os.Args" then .host else .unknown
-    | .unknown => .unknown
-  | .hostArgs => .host
-  | _ => .unknown
-
 def ArgsSrc.value (s : ArgsSrc) (h : Host) : Option (List String) :=
   match s with
   | .opt a => some a
   | .host => some h.args
   | .unknown => none
+
+/-- the vector `interp.args` holds after `New` -/
+def interpArgsSrc (F : Facts) (o : Options) : ArgsSrc :=
+  match slotSlice F "args" o.args with
+  | .given a => .opt a
+  | .dflt d => if d == "os.Args" then .host else .unknown
+  | .unknown => .unknown
+
+/-- the vector behind the script's `os.Args` -/
+def scriptArgsSrc (F : Facts) (o : Options) (h : Host) : ArgsSrc :=
+  match ioStream F (cfgOf F o h) "os" "Args" with
+  | .args => interpArgsSrc F o
+  | .hostArgs => .host
+  | _ => .unknown
 
 /-- the script's `os.Args` -/
 def scriptArgs (F : Facts) (o : Options) (h : Host) : Option (List String) := (scriptArgsSrc F o h).value h
@@ -164,16 +167,45 @@ def flagParseSrc (F : Facts) (o : Options) (h : Host) : ArgsSrc :=
   | .hostFlag, .hostFlag => .host
   | _, _ => .unknown
 
-/-- `flag.CommandLine.Name()`: element 0 of whose arguments -/
-def cmdLineNameSrc (F : Facts) (o : Options) (h : Host) : ArgsSrc :=
-  match effective F (cfgOf F o h) "flag" "CommandLine" with
+/-- where the name of the script's `flag.CommandLine` comes from -/
+inductive NameSrc where
+  | argsHead     -- element 0 of `interp.args`, "" when that vector is empty
+  | hostArg0     -- `os.Args[0]` of the host
+  | unknown
+  deriving DecidableEq, Repr, Inhabited
+
+/-- read from the extracted definitions of fixStdlib:
+      c := flag.NewFlagSet(os.Args[0], flag.PanicOnError)                                      (before 3f8ef33)
+      prog := ""; if len(interp.args) > 0 { prog = interp.args[0] }; c := flag.NewFlagSet(prog, flag.PanicOnError)
+    with `p["CommandLine"] = reflect.ValueOf(&c).Elem()` -/
+def cmdLineNameKind (F : Facts) (c : Cfg) : NameSrc :=
+  match effective F c "flag" "CommandLine" with
   | .override r =>
-    let ids := closure F r.free
-    if hasId ids "os.Args" then .host
-    else if hasId ids "interp.args" then scriptArgsSrc F o h
+    if r.shape == .expr && r.free == [⟨"reflect.ValueOf", "reflect", "ValueOf"⟩, ⟨"c", "c", "c"⟩] then
+      match findLocal F "c" with
+      | some lc =>
+        if lc.assigns != [] then .unknown
+        else if lc.expr == "flag.NewFlagSet(os.Args[0], flag.PanicOnError)" then .hostArg0
+        else if lc.expr == "flag.NewFlagSet(prog, flag.PanicOnError)" then
+          match findLocal F "prog" with
+          | some lp =>
+            if lp.expr == "\"\"" && lp.assigns.map (fun a => (a.guards, a.expr)) == [(["len(interp.args) > 0"], "interp.args[0]")] then .argsHead
+            else .unknown
+          | none => .unknown
+        else .unknown
+      | none => .unknown
     else .unknown
-  | .table (.hostVar "flag" "CommandLine") => .host
+  | .table (.hostVar "flag" "CommandLine") => .hostArg0
   | _ => .unknown
+
+def headOr (a : List String) : String := a.head?.getD ""
+
+/-- `flag.CommandLine.Name()` (and the program named by the "Usage of …" line of a parse error) -/
+def cmdLineName (F : Facts) (o : Options) (h : Host) : Option String :=
+  match cmdLineNameKind F (cfgOf F o h) with
+  | .argsHead => ((interpArgsSrc F o).value h).map headOr
+  | .hostArg0 => some (headOr h.args)
+  | .unknown => none
 
 inductive Dest where
   | opt | host | unknown
